@@ -39,7 +39,7 @@ def run(ctx):
     iscount = lambda n: (n.k == "ImplicitCastExpr" and n.ck == "LValueToRValue" and strip(n).k == "MemberExpr"
                          and strip(n).field == "count" and strip(n).rec == B)
     for count in (1, 2, 3, 5):
-        for old in range(0, 12):
+        for old in list(range(0, 12)) + [2 ** 32 - 2, 2 ** 32 - 1, 2 ** 32, 3 * (2 ** 32 // 3) + 2]:
             atom = atom_from([(isop, old), (iscount, count)])
             serial = (old + 1) % count == 0
             rw = reach(f, wakes, atom)
@@ -77,6 +77,17 @@ def run(ctx):
     if len({list_key(P, f, f.args(c)[1]) for c in wakes + waits}) != 1:
         bad = bad or "the wait path and the wake path select their waiter list by different expressions"
     o.check(bad is None, "table count {1,2,3,5} x 12 arrivals", bad, site=op.node, construct="barrier arrival")
+
+    o = ctx.ob("arrive.width", f, "the arrival counter and the ticket taken from it are 64 bits wide", "a 32-bit arrival number wraps after 2^32 arrivals (minutes of "
+               "tight looping); for a count that is not a power of two the arrival numbered 0 is then declared last of a round nobody else is in: it waits for ever, "
+               "and so do the others")
+    cf = P.field(B, "counter")
+    okw = cf.get("bits_size") == 64
+    tick = [d for d in f.local_by_did.values() if d["name"] == "new_value"]
+    from rules import type_info
+    if tick and (type_info(tick[0]["t"]) or (0,))[0] != 64:
+        okw = False
+    o.check(okw, "64-bit", "counter is %s bits, ticket local is `%s`" % (cf.get("bits_size"), tick[0]["t"] if tick else "?"), site=f.loc, construct="barrier counter width")
 
     o = ctx.ob("counter.writers", "", "`counter` is written only by init (0) and the arrival fetch-add; `count` only by init",
                "resetting the counter between rounds races with arrivals of the next round")
